@@ -74,6 +74,9 @@ def _gen_steps(rng, cap, floaty, n_steps, preemptible):
         if preemptible:
             st["prio"] = rng.choice([0, 1, 1, 2, 3, 5])
             st["preempt"] = rng.random() < 0.6
+            # what the holder's on_preempt callback does: nothing, or re-request from inside the callback
+            # (a resumable job re-queues itself: same amount / one unit)
+            st["on_pre"] = rng.choice([None, None, "reacq", "reacq", "reacq1"])
         steps.append(st)
     return steps
 
@@ -182,7 +185,12 @@ def run_resource(case: dict) -> Result:
                 else:
                     try:
                         if pre:
-                            fut = prim.acquire(st["amt"], priority=st["prio"], preempt=st["preempt"], on_preempt=_mk_on_preempt(r))
+                            call_ctx.append({"avail": prim.available, "done": 0, "nested": 0, "req": r})
+                            try:
+                                fut = prim.acquire(st["amt"], priority=st["prio"], preempt=st["preempt"],
+                                                   on_preempt=_mk_on_preempt(r, st.get("on_pre")))
+                            finally:
+                                call_ctx.pop()
                         else:
                             fut = prim.acquire(st["amt"])
                     except ValueError as exc:
@@ -212,10 +220,26 @@ def run_resource(case: dict) -> Result:
                     led.released(r)
                 elif r.outcome == "preempted" and r.s_rel is None:
                     led.released(r)
+                # the job re-queued itself from its on_preempt callback: finish it on the new grant
+                r2 = requeued.pop(r.rid, None)
+                if r2 is not None:
+                    g2 = yield r2.fut
+                    led.granted(r2)
+                    r2.extra = g2
+                    if g2.preempted:
+                        r2.outcome = "preempted"
+                        led.released(r2)
+                    yield 1 * TS
+                    g2.release()
+                    if r2.s_rel is None:
+                        led.released(r2)
 
         return proc
 
-    def _mk_on_preempt(r):
+    call_ctx: list = []   # the acquire() call in progress (preemption only happens inside one)
+    requeued: dict = {}   # rid of a preempted request -> the request its callback issued
+
+    def _mk_on_preempt(r, action=None):
         def cb():
             preempt_seen[0] += 1
             if r.s_grant is not None and r.s_rel is None:
@@ -223,6 +247,29 @@ def run_resource(case: dict) -> Result:
                 led.released(r)
             else:
                 r.outcome = "preempted"
+            ctx = call_ctx[-1] if call_ctx else None
+            if action in ("reacq", "reacq1"):
+                amt2 = r.amount if action == "reacq" else 1
+                r2 = led.request(r.worker, amount=amt2, prio=r.prio, hold=1, how="acq")
+                fut2 = prim.acquire(amt2, priority=r.prio, preempt=False, on_preempt=_mk_on_preempt(r2))
+                r2.fut = fut2
+                r2.blocked = not fut2.is_resolved
+                requeued[r.rid] = r2
+                res.count("reentrant_acquires")
+                if ctx is not None and fut2.is_resolved:
+                    # What the victim's re-request may take on the spot is what was free before its own eviction:
+                    # free at the preemptor's call + amounts of victims already evicted - earlier nested grants.
+                    # Its own amount was freed *for the preemptor* (better priority, earlier arrival).
+                    expected = ctx["avail"] + ctx["done"] - ctx["nested"]
+                    a = ctx["req"]
+                    if amt2 > expected and _key(a) < _key(r2):
+                        flag("grant-out-of-order", "reentrant-on-preempt/priority-then-arrival",
+                             f"request {r2.rid} (key {_key(r2)}), issued from the on_preempt callback of victim {r.rid}, "
+                             f"was granted {amt2} on the spot out of the capacity freed for preemptor {a.rid} (key {_key(a)}); "
+                             f"free before the eviction: {expected}")
+                    ctx["nested"] += amt2
+            if ctx is not None:
+                ctx["done"] += r.amount
 
         return cb
 
@@ -1124,6 +1171,24 @@ def gen_bulkhead(rng: random.Random, tier: str) -> dict:
     n = rng.randint(2, 14)
     spread = rng.choice([0, 0, 2, 6, 15])
     reqs = [{"at": rng.randint(0, spread), "hold": rng.choice([0, 1, 2, 3, 5, 8])} for _ in range(n)]
+    # caller-side correlation ids riding in metadata["request_id"], as the library's Client writes them (1, 2, 3, ...
+    # per client): several clients behind one bulkhead produce equal ids on overlapping requests
+    scheme = rng.choice(["none", "distinct", "per-client", "per-client", "all-equal", "small-ints"])
+    if scheme != "none":
+        nclients = rng.choice([2, 2, 3])
+        counters = [0] * nclients
+        for i, q in enumerate(sorted(reqs, key=lambda q: q["at"])):
+            if scheme == "distinct":
+                q["request_id"] = 1000 + i
+            elif scheme == "per-client":
+                c = i % nclients
+                counters[c] += 1
+                q["client"] = c
+                q["request_id"] = counters[c]
+            elif scheme == "all-equal":
+                q["request_id"] = 7
+            else:
+                q["request_id"] = rng.randint(1, 4)  # also collides with the bulkhead's own numbering
     return {"kind": "Bulkhead", "max_concurrent": mc, "max_wait_queue": mq, "max_wait_time": mwt, "reqs": reqs}
 
 
@@ -1138,7 +1203,11 @@ def run_bulkhead(case: dict) -> Result:
     flagged: set = set()
     box = []
 
+    ids = [q["request_id"] for q in case["reqs"] if "request_id" in q]
+    id_tag = "/colliding-request-ids" if len(set(ids)) < len(ids) else ""
+
     def flag(oracle, shape, detail, witness=None):
+        shape = shape + id_tag
         k = (oracle, shape)
         if k in flagged:
             return
@@ -1170,7 +1239,12 @@ def run_bulkhead(case: dict) -> Result:
     box.append(run)
     led = run.ledger
     for i, q in enumerate(case["reqs"]):
-        run.schedule(Event(time=at(q["at"]), event_type="c09.req", target=bh, context={"metadata": {"rid": i, "hold": q["hold"]}}))
+        md = {"rid": i, "hold": q["hold"]}
+        if "request_id" in q:
+            md["request_id"] = q["request_id"]
+        if "client" in q:
+            md["client"] = f"client-{q['client']}"
+        run.schedule(Event(time=at(q["at"]), event_type="c09.req", target=bh, context={"metadata": md}))
     last = {"rej": 0, "queued": 0, "to": 0}
     timed_out_total = [0]
 
@@ -1363,7 +1437,7 @@ def run_limiter(case: dict) -> Result:
     run = Run(res, [prim, knob] + ([sink] if comp == "Server" else []))
     box.append(run)
     for i, q in enumerate(reqs):
-        md = {"rid": i}
+        md = {"rid": i, "request_id": 1 + i % 3}  # colliding caller-side correlation ids ride along
         if "weight" in q:
             md["weight"] = q["weight"]
         run.schedule(Event(time=at(q["at"]), event_type="c09.task", target=prim, context={"metadata": md}))
